@@ -467,6 +467,7 @@ def _rate_classes(run, prog):
         _degenerate_axes(run, ci, init, K)
         _nonneg(run, ci, ev, K)
     _degenerate_1d(run, prog)
+    _photon_conversion(run, prog)
     _call_forwards(run, prog)
     if n_interp < 13:
         raise AnalysisError('only %d interpolating rate classes found (floor 13)' % n_interp)
@@ -598,6 +599,90 @@ def _call_forwards(run, prog):
                      '%s.__call__(%s) calls evaluate(%s): rate(%s) does not evaluate the rate at those arguments (two of them are exchanged or dropped)'
                      % (ci.name, ', '.join(ps), ', '.join(got), ', '.join(ps)))
     run.floor('C07-R9', 8)
+
+
+def _photon_conversion(run, prog):
+    """R10: 'photon coefficients times hc/lambda': PhotonToJ.to(x, wavelength) = x * (h c 1e9) / wavelength with the wavelength in nm, and
+    inv its inverse; the constants are scipy's Planck and speed_of_light."""
+    from ..algebra import SymEval, L, C
+    from ..inline import propagate, flatten, module_lookup
+    run.describe('C07-R10', 'PhotonToJ: to(x, w) = x * Planck * speed_of_light * 1e9 / w (w in nm), inv(to(x, w), w) = x')
+    rel = 'cherab/core/utility/conversion.py'
+    cm = prog.load(rel, required=False)
+    if cm is None:
+        raise AnalysisError('anchored source file vanished: %s' % rel)
+    run.use_file(rel)
+    c = cm.classes.get('PhotonToJ')
+    if c is None:
+        raise AnalysisError('anchored class vanished: PhotonToJ')
+    K = 'cherab.core.utility.conversion|PhotonToJ|'
+    run.subject('C07-R10')
+    # the constants are the ones scipy.constants names Planck and speed_of_light (under any local alias)
+    consts = {}
+    for local, qual in cm.imports.items():
+        if qual in ('scipy.constants.Planck', 'scipy.constants.h'):
+            consts[local] = L('h')
+        elif qual in ('scipy.constants.speed_of_light', 'scipy.constants.c'):
+            consts[local] = L('c')
+        elif qual.startswith('scipy.constants.'):
+            consts[local] = L('scipy:' + qual.rsplit('.', 1)[1])
+
+    class E(SymEval):
+        def name(self, n):
+            if n.id in consts:
+                return consts[n.id]
+            if n.id in cm.assigns:
+                return self.ev(cm.assigns[n.id])
+            return super().name(n)
+    fac = None
+    for st in c.body:
+        if isinstance(st, ast.Assign) and norm(st.targets[0]) == 'conversion_factor':
+            try:
+                fac = E().ev(st.value)
+            except Exception:
+                fac = None
+    want = L('h') * L('c') * C(10 ** 9)
+    if fac is None:
+        run.undecided('C07-R10', 'PhotonToJ.conversion_factor', 'not a recognised arithmetic expression')
+    elif fac.eq(want):
+        run.ok('C07-R10', 'PhotonToJ.conversion_factor', 'Planck * speed_of_light * 1e9')
+    else:
+        run.fail('C07-R10', K + 'factor', rel, c.lineno, 'PhotonToJ.conversion_factor is %s; documented: h c in J nm, i.e. Planck * speed_of_light * 1e9 '
+                 '(every photon emission coefficient of the provider is scaled by it)' % fac.key()[:60])
+    fs = {f.name: f for f in c.body if isinstance(f, ast.FunctionDef)}
+
+    def value(f):
+        try:
+            f = flatten(f, module_lookup(cm))
+        except Exception:
+            pass
+        g = propagate(f)
+        rets = [r for r in ast.walk(g) if isinstance(r, ast.Return) and r.value is not None]
+        if len(rets) != 1:
+            return None
+        try:
+            return SymEval().ev(rets[0].value)
+        except Exception:
+            return None
+    run.subject('C07-R10')
+    if 'to' not in fs or 'inv' not in fs:
+        raise AnalysisError('anchored method vanished: PhotonToJ.to / inv')
+    vt, vi = value(fs['to']), value(fs['inv'])
+    F = L('cls.conversion_factor')
+    if vt is None or vi is None or any(l.startswith('?') for v in (vt, vi) for l in v.leaves()):
+        run.undecided('C07-R10', 'PhotonToJ.to / inv', 'not in a recognised arithmetic form')
+    else:
+        xt, wt = [L(a.arg) for a in fs['to'].args.args[-2:]]
+        xi, wi = [L(a.arg) for a in fs['inv'].args.args[-2:]]
+        if not vt.eq(xt * F / wt):
+            run.fail('C07-R10', K + 'to', rel, fs['to'].lineno, 'PhotonToJ.to returns %s; documented: x * conversion_factor / wavelength '
+                     '(photon energy hc / lambda)' % vt.key()[:60])
+        elif not vi.eq(xi * wi / F):
+            run.fail('C07-R10', K + 'inv', rel, fs['inv'].lineno, 'PhotonToJ.inv returns %s, which is not the inverse of to '
+                     '(x * wavelength / conversion_factor)' % vi.key()[:60])
+        else:
+            run.ok('C07-R10', 'PhotonToJ.to / inv', 'x * F / w and x * w / F')
+    run.floor('C07-R10', 2)
 
 
 def _is_interp1(e):
